@@ -1234,12 +1234,25 @@ def check_epoll_del_tolerance(P, ctx):
                 if b.id not in reach:
                     continue
                 l, op, rr = C.cond_atom(f, cond, True)
-                if isinstance(rr, tuple):
-                    continue
                 k = C.const_of(f, rr)
                 ln = f.sn(l)
-                if k is not None and op in ("!=", "==") and (f.show(l) == "errno" or (ln["k"] == "ref" and "errno" in ln["name"])):
+                if not isinstance(rr, tuple) and k is not None and op in ("!=", "==") and (f.show(l) == "errno" or (ln["k"] == "ref" and "errno" in ln["name"])):
                     forgiven.add(k)
+                # a predicate helper over the errno value: is_fd_gone_errno(epoll_errno)
+                if ln["k"] == "call" and C.const_of(f, rr) == 0:
+                    for d in P.callees(f, ln["id"])[0]:
+                        if not (d.static and d.file == f.file):
+                            continue
+                        for i, a in enumerate(ln["args"]):
+                            an = f.sn(a)
+                            if i < len(d.params) and (f.show(a) == "errno" or (an["k"] == "ref" and "errno" in an.get("name", ""))):
+                                pn = d.params[i]["name"]
+                                for m in d.nodes.values():
+                                    if m["k"] == "bin" and m["op"] in ("==", "!="):
+                                        ml = d.sn(m["l"])
+                                        kk = C.const_of(d, m["r"])
+                                        if ml["k"] == "ref" and ml.get("name") == pn and kk is not None:
+                                            forgiven.add(kk)
             for bb in reach:
                 if f.blocks[bb].noreturn:
                     aborting = True
